@@ -3,6 +3,7 @@
 # Applies /verif/seeded/<slug>/patch.diff to /repo's working tree, runs the quick checks, restores /repo.
 slug=$1; shift
 cd /verif
+export KAISIM_EVIDENCE_DIR=/tmp/seeded-evidence
 git -C /repo diff --quiet || { echo "repo not clean"; exit 2; }
 git -C /repo apply /verif/seeded/$slug/patch.diff || { echo "APPLY-FAILED $slug"; exit 2; }
 for p in "$@"; do
